@@ -98,8 +98,18 @@ _JX = {}
 
 def _jx():
     if not _JX:
+        import os
         import jax
         jax.config.update("jax_enable_x64", True)
+        run_tmp = os.environ.get("VERIF_RUN_TMP")
+        if run_tmp and os.path.isdir(run_tmp):
+            # per-primitive executables are shared between the shards of one run (directory is removed by the runner)
+            try:
+                jax.config.update("jax_compilation_cache_dir", os.path.join(run_tmp, "xla_cache"))
+                jax.config.update("jax_persistent_cache_min_compile_time_secs", 0.0)
+                jax.config.update("jax_persistent_cache_min_entry_size_bytes", -1)
+            except Exception:  # noqa: BLE001  (option names differ between jax versions)
+                pass
         import jax.numpy as jnp
         import nifty.re as jft
         _JX.update(jax=jax, jnp=jnp, jft=jft)
@@ -418,9 +428,14 @@ def covariance_spectrum(A, full):
     flat = np.ravel_multi_index(tuple(diff), tuple(full))
     cmax = max(1e-300, float(np.max(np.abs(C))))
     close(C, C[0][flat], "covariance_not_stationary", tol=1e-9, scale=cmax)
-    spec = np.fft.fftn(C[0].reshape(tuple(full))) / N
-    close(spec.imag, np.zeros(spec.shape), "covariance_not_symmetric", tol=1e-9, scale=cmax)
-    return spec.real, cmax
+    # per-mode variances with *relative* accuracy: E |sum_x e^{-ikx} f_x|^2 = N^2 s_k = sum_j |FFT_x(A)[k, j]|^2
+    # (the FFT of a covariance row would carry an absolute error of eps * largest mode into every mode)
+    B = np.fft.fftn(A.reshape(tuple(full) + (A.shape[1],)), axes=tuple(range(len(full))))
+    spec = np.sum(B.real ** 2 + B.imag ** 2, axis=-1) / float(N) ** 2
+    rough = np.fft.fftn(C[0].reshape(tuple(full))) / N
+    close(rough, spec.astype(complex), "covariance_row_vs_mode_variances", tol=1e-9,
+          scale=max(cmax, float(np.max(spec))))
+    return spec, cmax
 
 
 def matern_mode_variance(sp, vals, k, renorm=False, adjust=True):
@@ -478,8 +493,6 @@ def spectrum_checks(rec, A, hv, azm, impl, classes):
     full = [n for s in shapes for n in s]
     spec, cmax = covariance_spectrum(A, full)
     zero = (0,) * len(full)
-    tol_s = 1e-9 * max(cmax, float(np.max(np.abs(spec))))
-    require(float(np.min(spec)) >= -tol_s, "negative_mode_variance", f"{float(np.min(spec)):.3e}")
     marg = []
     ofs = 0
     for s in shapes:
@@ -550,6 +563,8 @@ def cl_scalar(x, clat):
 
 
 def check_scale_cl(rec):
+    # the classic parameters describe the power spectrum (non-parametric) / the amplitude (Matern docstring formula)
+    rec = dict(rec, spaces=[dict(sp, kind="power" if sp["model"] == "np" else "amplitude") for sp in rec["spaces"]])
     classes = space_classes(rec)
     multi = len(rec["spaces"]) >= 2
     shapes = [grid_shape(sp["grid"]) for sp in rec["spaces"]]
@@ -578,7 +593,16 @@ def check_scale_cl(rec):
         if sp["model"] == "np":
             close(pred["average"][i], v["fluctuations"] ** 2, "fluctuations_prior_transform", tol=1e-10,
                   scale=max(1e-300, v["fluctuations"] ** 2))
-    spectrum_checks(rec, A, hv, azm, "cl", classes)
+    spec = spectrum_checks(rec, A, hv, azm, "cl", classes)
+    if not multi:
+        # the model's power-spectrum accessor (amplitude^2 incl. zero mode; field = HT[amplitude * xi], HT ~ 1/V)
+        ps = cfm.power_spectrum.force(clat)
+        pspace = ps.domain[0]
+        per_mode = np.asarray(ift.PowerDistributor(pspace.harmonic_partner, pspace)(ps).asnumpy())
+        V = grid_volume(rec["spaces"][0]["grid"])
+        close(per_mode / V ** 2, spec, "power_spectrum_accessor_vs_covariance", tol=1e-9,
+              scale=max(1e-300, float(np.max(np.abs(spec)))))
+        classes.append("power_spectrum_accessor")
     # ---- metamorphic: same hyper-latents on a re-gridded domain
     if rec.get("meta") is not None and all(sp["model"] == "np" for sp in rec["spaces"]):
         rec2 = regrid(rec)
@@ -644,37 +668,56 @@ def _ln(draw, lo, hi):
     return [m, m * draw(st.sampled_from([0.125, 0.25, 0.5, 1.0]))]
 
 
-def _grid(draw, budget, allow_hp):
-    if allow_hp and draw(st.integers(0, 7)) == 0:
-        ns = [n for n in (1, 2, 4) if 12 * n * n <= budget] or [1]
+# nifty.re is evaluated eagerly: XLA compiles every primitive once per array shape.  The quick tier of the
+# sub-checks that run nifty.re therefore draws the grid shapes from fixed menus (sizes 2..12 all reachable through
+# the classic-only sub-checks and the thorough tier, which draw sizes freely).
+MENUS = {
+    "agree1": dict(d1=[2, 3, 4, 5, 7, 8, 12], d2=[[2, 2], [3, 2], [4, 4], [5, 3], [12, 2], [6, 7], [12, 12]], hp=[1, 2]),
+    "agree2": dict(d1=[2, 3, 4, 7, 12], d2=[[2, 2], [4, 3], [5, 5]], hp=[1]),
+    "scale1": dict(d1=[2, 3, 4, 6, 8, 12], d2=[[2, 2], [3, 2], [4, 4], [6, 3]], hp=[]),
+    "scale2": dict(d1=[3, 4, 5, 6], d2=[[2, 2], [3, 2]], hp=[]),
+}
+
+
+def _grid(draw, budget, allow_hp, menu=None):
+    """budget: maximal number of grid points; menu: None (free sizes 2..12) or a key of MENUS"""
+    M = MENUS.get(menu)
+    if allow_hp and draw(st.sampled_from([0] * 9 + [1])) == 1:
+        ns = [n for n in (M["hp"] if M else (1, 2, 4)) if 12 * n * n <= budget] or [1]
         return {"t": "hp", "nside": draw(st.sampled_from(ns))}
     nd = draw(st.sampled_from([1, 1, 2, 2])) if budget >= 4 else 1
-    hi = max(2, min(12, budget))
     if nd == 1:
-        n = draw(st.sampled_from([draw(st.integers(2, hi)), draw(st.integers(min(4, hi), hi))]))
+        if M:
+            n = draw(st.sampled_from([m for m in M["d1"] if m <= max(2, budget)]))
+        else:
+            n = draw(st.integers(2, max(2, min(12, budget))))
         return {"t": "rg", "shape": [n], "dist": [draw(LDIST)]}
-    a = draw(st.integers(2, max(2, min(12, budget // 2))))
-    b = draw(st.integers(2, max(2, min(12, budget // a))))
+    if M:
+        a, b = draw(st.sampled_from([m for m in M["d2"] if m[0] * m[1] <= max(4, budget)]))
+    else:
+        a = draw(st.integers(2, max(2, min(12, budget // 2))))
+        b = draw(st.integers(2, max(2, min(12, budget // a))))
     d0 = draw(LDIST)
     how = draw(st.sampled_from(["equal", "commensurate", "free", "free"]))
     if how == "equal":
         d1 = d0
     elif how == "commensurate":
-        d1 = d0 * draw(st.sampled_from([0.5, 2.0, 0.75, 3.0, 1.5]))
+        d1 = d0 * draw(st.sampled_from([0.5, 2.0] if M else [0.5, 2.0, 0.75, 3.0, 1.5]))
     else:
         d1 = draw(LDIST)
     return {"t": "rg", "shape": [a, b], "dist": [d0, d1]}
 
 
-def _space(draw, i, budget, models, kinds, allow_hp, degenerate=False):
-    g = _grid(draw, budget, allow_hp)
+def _space(draw, i, budget, models, kinds, allow_hp, degenerate=False, menu=None):
     if degenerate:
         g = {"t": "rg", "shape": [draw(st.integers(2, 3))], "dist": [draw(LDIST)]}
+    else:
+        g = _grid(draw, budget, allow_hp, menu)
     model = draw(st.sampled_from(models))
     sp = {"model": model, "grid": g, "pre": draw(st.sampled_from([f"s{i}", f"ax{i}_", "" if i == 0 else f"b{i}"])),
           "kind": draw(st.sampled_from(kinds)), "scalar_dist": draw(st.booleans())}
     if model == "np":
-        how = draw(st.sampled_from(["none", "flex", "flex_asp", "flex_asp"]))
+        how = draw(st.sampled_from(["none", "flex", "flex", "flex_asp", "flex_asp"]))
         if two_bins(g):
             how = "none" if not degenerate else draw(st.sampled_from(["flex", "flex_asp"]))
         sp["fluct"] = _ln(draw, 0.25, 4.0)
@@ -707,9 +750,14 @@ def _distinct_prefixes(spaces):
     return spaces
 
 
+AGREE_MODELS = ["np", "np", "np", "matern"]
+AGREE_KINDS = ["power", "power", "amplitude"]
+
+
 def agree_recipes(nspaces, degenerate=False):
     def strategy(tier):
         total = 600 if tier == "quick" else 1500
+        menu = None if tier != "quick" else ("agree1" if nspaces == 1 else "agree2")
 
         @st.composite
         def rec(draw):
@@ -719,9 +767,9 @@ def agree_recipes(nspaces, degenerate=False):
             for i in range(nspaces):
                 per = budget if nspaces == 1 else max(2, min(144, budget // (2 if i == 0 else 1)))
                 if degenerate and i == 0:
-                    sp = _space(draw, i, per, ["np"], ["power", "power", "amplitude"], False, degenerate=True)
+                    sp = _space(draw, i, per, ["np"], AGREE_KINDS, False, degenerate=True)
                 else:
-                    sp = _space(draw, i, per, ["np", "np", "np", "matern"], ["power", "power", "amplitude"], True)
+                    sp = _space(draw, i, per, AGREE_MODELS, AGREE_KINDS, True, menu=menu)
                 spaces.append(sp)
                 budget = max(2, budget // _points(sp["grid"]))
             if degenerate and nspaces == 2 and draw(st.booleans()):
@@ -738,19 +786,21 @@ def degenerate_recipes(tier):
 
 def scale_recipes(impl, models):
     def strategy(tier):
-        total = 144 if tier == "quick" else 256
+        total = 120 if tier == "quick" else 256
+        use_menu = impl == "re" and tier == "quick"
 
         @st.composite
         def rec(draw):
             r = _common(draw)
             nsp = draw(st.sampled_from([1, 2, 2]))
+            menu = None if not use_menu else ("scale1" if nsp == 1 else "scale2")
             spaces = []
             budget = total
             kinds = ["power"] if impl == "cl" else ["power", "amplitude"]
             for i in range(nsp):
                 per = budget if nsp == 1 else (max(2, min(24, budget // 4)) if i == 0 else budget)
                 mods = models if (i == 0 or "np" not in models) else models + ["np"]
-                sp = _space(draw, i, per, mods, kinds, False)
+                sp = _space(draw, i, per, mods, kinds, False, menu=menu)
                 if sp["model"] == "matern":
                     if impl == "cl":
                         sp["adjust"] = True if nsp == 2 else draw(st.sampled_from([True, True, False]))
@@ -758,18 +808,21 @@ def scale_recipes(impl, models):
                         sp["renorm"] = draw(st.booleans())
                 spaces.append(sp)
                 budget = max(2, budget // _points(sp["grid"]))
+            if nsp == 2 and draw(st.booleans()):
+                spaces = spaces[::-1]
             r["spaces"] = _distinct_prefixes(spaces)
             if impl == "cl":
-                z = draw(st.sampled_from(["ln", "ln", "ln", "scalar", "none"]))
+                z = draw(st.sampled_from(["ln", "ln", "scalar", "none"]))
                 if z == "scalar":
                     r["zm"] = draw(st.sampled_from([1.0, 0.5, 2.25]))
                 elif z == "none" and nsp == 1:
                     r["zm"] = None
-            # metamorphic partner
+            # metamorphic partner: doubled resolution at fixed volume and / or rescaled distances
             n_now = int(np.prod([_points(sp["grid"]) for sp in spaces]))
             dbl = []
-            cand = [i for i, sp in enumerate(spaces) if n_now * 2 ** len(sp["grid"]["shape"]) <= 2 * total]
-            if cand and draw(st.booleans()):
+            cand = [i for i, sp in enumerate(spaces) if n_now * 2 ** len(sp["grid"]["shape"]) <= 2 * total
+                    and (not use_menu or (len(sp["grid"]["shape"]) == 1 and sp["grid"]["shape"][0] <= 6))]
+            if cand and draw(st.integers(0, 3 if use_menu else 1)) == 0:
                 dbl = [draw(st.sampled_from(cand))]
             fac = [draw(st.sampled_from([1.0, 1.0, 0.125, 0.5, 3.0, 10.0])) for i in range(nsp)]
             if not dbl and all(f == 1.0 for f in fac):
@@ -782,12 +835,12 @@ def scale_recipes(impl, models):
 
 NT = "non-trivial = two sub-spaces or a sub-space volume different from 1"
 SUBS = [
-    Sub(name="agree_single", check=check_agree, strategy=agree_recipes(1), quick=480, thorough=12000, shards=16,
+    Sub(name="agree_single", check=check_agree, strategy=agree_recipes(1), quick=400, thorough=12000, shards=8,
         jax=True,
         rule="one sub-space (regular grid or HEALPix), non-parametric (both kinds) or Matern, both Hartley "
              "conventions: nifty.cl maker == nifty.re maker (field and power-spectrum accessor, 1e-9) and "
              "== SimpleCorrelatedField for non-parametric spectra; " + NT),
-    Sub(name="agree_product", check=check_agree, strategy=agree_recipes(2), quick=320, thorough=8000, shards=16,
+    Sub(name="agree_product", check=check_agree, strategy=agree_recipes(2), quick=240, thorough=8000, shards=8,
         jax=True,
         rule="two sub-spaces with independently generated (mixed) amplitude models: nifty.cl maker == nifty.re "
              "maker (field, 1e-9), latents mapped by the documented key names; " + NT),
@@ -808,8 +861,8 @@ SUBS = [
         rule="classic maker with at least one Matern amplitude (adjust_for_volume on/off for single spectra): same "
              "exact statistics vs the model's predicted fluctuations, per-mode variances == docstring kernel "
              "a^2 (1+(k/b)^2)^(c/2) / V; " + NT),
-    Sub(name="scale_re", check=check_scale_re, strategy=scale_recipes("re", ["np", "np", "matern"]), quick=320,
-        thorough=8000, shards=16, jax=True,
+    Sub(name="scale_re", check=check_scale_re, strategy=scale_recipes("re", ["np", "np", "matern"]), quick=240,
+        thorough=8000, shards=8, jax=True,
         rule="nifty.re maker, power and amplitude kind, Matern with and without renormalize_amplitude: exact "
              "statistics from the dense excitation matrix == fluctuations / scale / zeromode parameters at the latent "
              "combined by the documented product formulas; closed-form spectra; re-gridding invariance; " + NT),
